@@ -22,7 +22,7 @@ fuzz_target!(|data: &[u8]| {
         let kf = KnownFindings::load();
         let o = |k: &str| kf.is_open("C02", k);
         Env {
-            open: c02::Open { k: [o(c02::K1), o(c02::K2), o(c02::K3), o(c02::K4), o(c02::K5), o(c02::K9)] },
+            open: c02::Open { k: [o(c02::K1), o(c02::K2), o(c02::K3), o(c02::K4), o(c02::K5), o(c02::K9), o(c02::K11)] },
             denc: c02::default_encoding(),
             k1: kf.is_open("C04", c04::K1),
             k3: kf.is_open("C04", c04::K3),
